@@ -35,4 +35,22 @@ def jobs(tier):
                                    expect=[kind + ": emitted bytes equal the reference image"]))
         js.append(dict(name=f"defaults[L={L}]", fn="defaults", args=[L], collect_models=1))
         js.append(dict(name=f"toggling[L={L}]", fn="toggling", args=[L], collect_models=1))
+    # size thresholds: a writer that already holds a lot (300 bytes; 66,000 in the thorough tier) and long strings
+    for npre in ((300,) if tier == "quick" else (300, 66000)):
+        for k in NUM:
+            js.append(dict(name=f"number[{k},pre={npre}]", fn="number", args=[k, npre], collect_models=1,
+                           expect=[k + ": emitted bytes equal the reference image"]))
+        for kind in ("string", "encoded_string"):
+            js.append(dict(name=f"{kind}[L=2,pre={npre}]", fn="string", args=[kind, 2, npre], collect_models=1,
+                           expect=[kind + ": emitted bytes equal the reference image"]))
+        for kind in ("fixed_string", "fixed_encoded_string"):
+            js.append(dict(name=f"{kind}[L=2,pre={npre}]", fn="fixed", args=[kind, 2, npre, 0, 5], collect_models=1,
+                           expect=[kind + ": emitted bytes equal the reference image"]))
+    for L in ((66, 130) if tier == "quick" else (33, 66, 130, 260, 520)):
+        for kind in ("string", "encoded_string"):
+            js.append(dict(name=f"{kind}[L={L},pre=1]", fn="string", args=[kind, L, 1], collect_models=1,
+                           expect=[kind + ": emitted bytes equal the reference image"]))
+        for kind in ("fixed_string", "fixed_encoded_string"):
+            js.append(dict(name=f"{kind}[L={L},pre=1]", fn="fixed", args=[kind, L, 1, L - 1, L + 2], collect_models=1,
+                           expect=[kind + ": emitted bytes equal the reference image"]))
     return js
